@@ -11,40 +11,16 @@ def run(ctx):
     if not any("NoRace" in e for e in r["errors"]):
         raise Inconclusive("sanity: NoRace does not catch the unlocked len() of the pinned Keys/Values:\n" + r["tail"])
     ctx.cov["sanity"] = "LenOutsideLock=TRUE (Keys/Values of the pinned commit): TLC reports the race Set || Keys after %d states" % r["distinct"]
-    # binding: real goroutines on a -race build; histories judged by TLC
-    ctx.copy_repo([])
-    ctx.add_shim([])
-    rbin = ctx.go_build("safekv", name="safekv_race", race=True)
-    outd = os.path.join(ctx.out, "SafeKV")
-    os.makedirs(outd, exist_ok=True)
-    n = 6000 if quick else 60000
-    env = dict(GOENV, GORACE="halt_on_error=0 exitcode=66")
-    try:
-        rr = subprocess.run([rbin, "real", "-out", outd, "-n", str(n), "-seed", str(ctx.seed)], capture_output=True, text=True, env=env, timeout=1500)
-    except subprocess.TimeoutExpired:
-        raise Inconclusive("real-concurrency run did not finish")
-    if "DATA RACE" in rr.stderr:
-        rep = rr.stderr[rr.stderr.index("WARNING: DATA RACE"):][:3000]
-        import re
-        fn = re.findall(r"mapz\.\(\*SafeKV\[[^\]]*\]\)\.(\w+)", rep)
-        ctx.violation("SafeKV: the Go race detector reports a data race (%s)" % ", ".join(sorted(set(fn)))[:200],
-                      {"component": "SafeKVRace", "report": rep, "note": "re-run the check"}, key="SafeKV/race/" + "+".join(sorted(set(fn))))
-    elif rr.returncode != 0:
-        raise Inconclusive("real-concurrency run failed: %s" % rr.stderr[-2000:])
-    rs = read_json(os.path.join(outd, "real_stats.json"))
-    ctx.cov["engines"].append({"engine": "E4 real goroutines (-race)", "component": "SafeKV", "histories": rs["histories"], "events": rs["events"]})
-    ok, bad, nh, nev = vlib.validate_hist(ctx, "SafeKV", "AtomicMapHist", "Hist.cfg", os.path.join(outd, "real_hist.ndjson"), "SafeKV_real",
-                                          max_events=400000 if quick else 4000000, seed=ctx.seed)
-    log("TLC history validation SafeKV real goroutines: %d histories, %d events, %s" % (nh, nev, "accepted" if ok else "REJECTED"))
-    if ok:
-        ctx.cov["traces_validated_against_impl"] += nh
-        hs = list(vlib.split_histories(os.path.join(outd, "real_hist.ndjson")))
-        ctx.cov["samples"].append([json.loads(x) for x in hs[0][:14]])
-    else:
-        fe = bad.get("failing_event", {})
-        ctx.violation("SafeKV: the abstract atomic-map spec rejects event %d of a history: %s" % (bad["failing_event_index"], json.dumps(fe)[:300]),
-                      dict(bad, component="SafeKVHist"), key="SafeKV/hist/%s/%s" % (fe.get("ev"), fe.get("op", "")))
-    ctx.assumptions += ["int keys 1..4 and int values", "data-race freedom and atomicity on the code are observations of the race detector and of TLC-validated histories of real goroutine executions (no deterministic scheduling of SafeKV yet); the lock discipline itself is model-checked exhaustively for 3 goroutines over all 16 methods",
+    # binding: deterministic scheduler (lock operations are park points; a goroutine that cannot get the lock is
+    # not granted), every edge of the step-level graph replayed, divergences explored, schedules sampled; then real
+    # goroutines on a -race build. All histories are judged by TLC against AtomicMapHist.
+    extra = [] if quick else [("MCSafeKVStep", "MC_step_thorough.cfg")]
+    vlib.conc_component(ctx, "SafeKV", "SafeKV", "MCSafeKVStep", "MC_step_quick.cfg", "safekv", ["mapz"], ["mapz/safekv.go"],
+                        hist_spec=("SafeKV", "AtomicMapHist", "Hist.cfg"), extra_mc=extra, walk_mode="cover" if quick else "probe",
+                        sample_n=600 if quick else 10000, real_n=6000 if quick else 60000,
+                        hist_budget=300000 if quick else 3000000, explore_budget=3000 if quick else 20000,
+                        sync_files=["mapz/safekv.go"])
+    ctx.assumptions += ["int keys 1..4 and int values", "atomicity on the code: every lock-order interleaving of the step-level model (2x1 over 10 calls, 2x2 and 3x1 over the mutating core) is replayed on the real SafeKV under a deterministic scheduler whose sync shim turns RWMutex operations into park points; data-race freedom is an observation of the race detector on real goroutines",
                         "Map(fn) is driven with one callback (add 100 to every value and report what it saw)"]
 
 def replay(ctx, rp):
